@@ -97,7 +97,7 @@ CHECKS = {
              "be LintPool behaviours (code -> spec).  For every tree all runs - serial, scheduled, real pool, permuted "
              "directory listings, five root/cwd spellings, project location, PYTHONHASHSEED values - must give the same "
              "normalised lint and SPDX output and exit status; trees with more covered files than processors; and a tree linted, edited and "
-             "linted again by ONE process must give what a fresh interpreter gives for the edited contents (the history of the process is a hidden parameter).",
+             "linted again by ONE process must give what a fresh interpreter gives for the edited contents (the history of the process is a hidden parameter). RootTable.tla (which directory is the project: version control x working directory x --root, 27 cells, M |= R) is replayed cell by cell.",
         note="Hash seeds and listing orders are sampled (seeded); pool.map semantics (fresh callable per chunk, results in "
              "input order) are transcribed in harness/schedshim.py; equality with R itself is C01's subject.",
         ref="5/C14"),
